@@ -137,9 +137,14 @@ func newPkg(pkg *packages.Package, u *Universe) Package {
 				p.funcs[x.Name()] = x
 			}
 		case *types.TypeName:
-			p.types[x.Name()] = x
+			// Defs also lists function-local types and type parameters
+			if x.Parent() == pkg.Types.Scope() {
+				p.types[x.Name()] = x
+			}
 		case *types.Const:
-			p.constants[x.Name()] = x
+			if x.Parent() == pkg.Types.Scope() {
+				p.constants[x.Name()] = x
+			}
 		}
 	}
 
